@@ -113,7 +113,8 @@ def run(ctx):
     d = ctx.spec_copy("sync")
     ctx.rule = ("MC: all interleavings of the fine-grained specs. S: every coarse (gate-to-gate) schedule of 2 processes x 2 Gets and of "
                 "3 processes x 1 Get over 2 keys (thorough: all; quick: all 2-process ones and simulated 3-process ones), and every "
-                "Acquire/Release/cancel event sequence to depth 7 (quick: 5) for capacities 0..2, forced on the real code. "
+                "Acquire/Release/cancel event sequence to depth 7 (quick: 5) for capacities 0..2 (3 processes, <= 3 Acquires each, contexts live or "
+                "already done -- at most 2 already-done ones per sequence), forced on the real code. "
                 "T: race-detector stress without shared instrumentation; stamped invoke/return logs validated by OnceTrace / "
                 "SemaLinTrace / PoolTrace. distinct_nontrivial = distinct schedules / event sequences replayed")
     ctx.assumptions += [
@@ -150,9 +151,9 @@ def run(ctx):
               invariants=ONCE_INV, properties=ONCE_PROP)
     job("OnceMC", "OnceMC2_run.cfg", "once-mc 2 procs x 1..2 Gets")
     if not q:
-        write_cfg(d / "OnceMC3b_run.cfg", "FairSpec", {"Procs": "{1, 2, 3}", "Keys": KEYS, "KeyPlans": "<- SymTwoCallPlans"},
-                  invariants=ONCE_INV, properties=["MapStable", "EveryGetReturns"])
-        job("OnceMC", "OnceMC3b_run.cfg", "once-mc 3 procs x 2 Gets", timeout=1500, workers=8)
+        write_cfg(d / "OnceMC3b_run.cfg", "Spec", {"Procs": "{1, 2, 3}", "Keys": KEYS, "KeyPlans": "<- SymTwoCallPlans"},
+                  invariants=ONCE_INV, properties=["MapStable"])
+        job("OnceMC", "OnceMC3b_run.cfg", "once-mc 3 procs x 2 Gets (safety)", timeout=1500, workers=8)
     for n in (0, 1, 2):
         write_cfg(d / ("SemaMC%d_run.cfg" % n), "FairSpec",
                   {"Procs": "{1, 2, 3}", "N": n, "MaxCalls": 2 if q else 3, "MaxRel": 3 if q else 4},
@@ -180,7 +181,7 @@ def run(ctx):
     depth = 5 if q else 7
     for n in (0, 1, 2):
         write_cfg(d / ("SemaGen%d_run.cfg" % n), "GSpec",
-                  {"Procs": "{1, 2, 3}", "N": n, "MaxCalls": 3, "MaxRel": 1000, "Depth": depth,
+                  {"Procs": "{1, 2, 3}", "N": n, "MaxCalls": 3, "MaxRel": 1000, "Depth": depth, "MaxDone": 2,
                    "OutFile": '"sema_sched_%d.ndjson"' % n}, invariants=["Emit", "GenOK"])
         job("SemaphoreGen", "SemaGen%d_run.cfg" % n, "sema-gen n=%d depth %d" % (n, depth), timeout=1500,
             workers=w if q else 8)
